@@ -115,16 +115,25 @@ def Adm.delete (a : Adm) (id : Nat) : Adm × Option Evicted :=
 def Adm.add (a : Adm) (id key hash : Nat) (w : Int) : Adm :=
   { a with kw := a.kw.set id { key := key, hash := hash, weight := w }, used := a.used + w }
 
+/-- `CacheWeight::is_space_available_for` (cache_weight.rs:219-224) computes `max_weight - weight_used` in `i64`: where the
+    difference is not representable the debug build panics ("attempt to subtract with overflow"). With `0 ≤ used` and
+    `max` an `i64` this cannot happen (`Adm.spaceOverflow_false`); a NEGATIVE total (known finding D10) with `max` near
+    `i64::MAX` reaches it. -/
+def Adm.spaceOverflow (a : Adm) : Bool := !inI64 (a.max - a.used)
+
 structure LoopResult where
   status : Status
   adm : Adm
   oracle : Oracle
   evicted : List Evicted     -- in eviction order
   popped : List SKey         -- every key popped from the sample, in order (the last one may have been spared)
+  overflow : Bool := false   -- `is_space_available_for` panicked on its subtraction (the status is then meaningless: `.pending`)
   deriving Repr
 
 /-- The `while` loop of `create_space` (admission_policy.rs:191-213). `fuel` bounds the iterations;
-    `createSpace_fuel` shows `|kw| + 1` is never exhausted. -/
+    `createSpace_fuel` shows `|kw| + 1` is never exhausted. The space test at the head of an iteration uses the value the
+    previous `is_space_available_for` returned (the caller's for the first iteration, the one right after the eviction
+    for the later ones): that call — BEFORE `maybe_fill_in` — is where the subtraction can overflow. -/
 def createLoop (t : TinyLFU) (size : Nat) (w : Int) (incEst : Nat) :
     Nat → Adm → List SKey → Oracle → List Evicted → List SKey → Except String LoopResult
   | 0, _, _, _, _, _ => .error "fuel exhausted"
@@ -148,6 +157,10 @@ def createLoop (t : TinyLFU) (size : Nat) (w : Int) (incEst : Nat) :
           else
             let (a', e?) := a.delete id
             let ev' := match e? with | some e => e :: ev | none => ev
+            if a'.spaceOverflow then
+              .ok { status := .pending, adm := a', oracle := { o with pops := pops }, evicted := ev'.reverse,
+                    popped := (k :: pp).reverse, overflow := true }
+            else
             let sample' := sample.filter (fun x => x.id != id)
             match fillSample t a'.kw (fillNeed size a'.kw sample') sample' { o with pops := pops } with
             | .error e => .error e
@@ -160,12 +173,14 @@ structure AdmResult where
   evicted : List Evicted := []
   popped : List SKey := []
   incEst : Option Nat := none     -- estimate of the incoming key, when `create_space` ran
+  overflow : Bool := false        -- the worker panicked in `is_space_available_for` (`max_weight - weight_used` outside `i64`)
   deriving Repr
 
 /-- `AdmissionPolicy::maybe_add` (admission_policy.rs:104-125) -/
 def maybeAdd (t : TinyLFU) (size : Nat) (a : Adm) (id key hash : Nat) (w : Int) (o : Oracle) :
     Except String AdmResult :=
   if w > a.max then .ok { status := .rejected .tooHeavy, adm := a, oracle := o }
+  else if a.spaceOverflow then .ok { status := .pending, adm := a, oracle := o, overflow := true }
   else if a.max - a.used ≥ w then .ok { status := .accepted, adm := a.add id key hash w, oracle := o }
   else match estimateO t hash o with
     | .error e => .error e
@@ -178,6 +193,6 @@ def maybeAdd (t : TinyLFU) (size : Nat) (a : Adm) (id key hash : Nat) (w : Int) 
         | .ok r =>
           let adm := if r.status = .accepted then r.adm.add id key hash w else r.adm
           .ok { status := r.status, adm := adm, oracle := r.oracle, evicted := r.evicted,
-                popped := r.popped, incEst := some incEst }
+                popped := r.popped, incEst := some incEst, overflow := r.overflow }
 
 end Cached
